@@ -100,6 +100,13 @@ CONST_SHAPES = [
     ("src/bint/overflowing.rs", r"const BITS_MINUS_1:\s*ExpType\s*=\s*\(Self::BITS - 1\) as ExpType;", "BInt::BITS_MINUS_1 = BITS - 1"),
 ]
 
+# where the macros above are expanded (checked textually: the translated bodies must be the ones the types really get)
+USES = [("src/buint/strict.rs", "crate::int::strict::impls!(U);"), ("src/bint/strict.rs", "crate::int::strict::impls!(I);"),
+        ("src/buint/const_trait_fillers.rs", "crate::int::cmp::impls!();"), ("src/bint/const_trait_fillers.rs", "crate::int::cmp::impls!();"),
+        ("src/buint/const_trait_fillers.rs", "crate::int::ops::trait_fillers!();"), ("src/bint/const_trait_fillers.rs", "crate::int::ops::trait_fillers!();"),
+        ("src/buint/bigint_helpers.rs", "crate::int::bigint_helpers::impls!(U);"), ("src/bint/bigint_helpers.rs", "crate::int::bigint_helpers::impls!(I);")]
+USES += [(f[0], "crate::macro_impl!(%s);" % f[1]) for f in FILES if f[1] and not f[0].startswith("src/int/")]
+
 # ------------------------------------------------------------------------------------------------------------------
 # types:  "U" (BUint digit list)  "I" (BInt digit list)  "bool"  "Z" (ExpType/u32)  "ord"  ("opt", T)  ("tup", [T..])
 # None is the unknown type of `None` / a diverging expression
@@ -1132,6 +1139,10 @@ def main():
         CUR[0] = path
         if not re.search(pat, strip_comments(open(os.path.join(REPO, path)).read())):
             die("the definition of %s changed" % what)
+    for path, text in USES:
+        CUR[0] = path
+        if re.sub(r"\s+", "", text) not in re.sub(r"\s+", "", strip_comments(open(os.path.join(REPO, path)).read())):
+            die("the macro expansion `%s` is no longer there" % text)
     out = ["(* GENERATED on every run by tools/rs2v_glue.py from /repo/src (the one-line projection functions of",
            "   buint/ bint/ int/ : checked, wrapping, saturating, strict, overflowing (non-loop forms), cmp, ops,",
            "   bigint_helpers).  Do not edit.  Proofs/GlueTie.v proves each definition equal to the hand-written model. *)",
